@@ -85,7 +85,8 @@ class Segmentation:
                 (nclasses, nchannels, nchannels))
         elif mu is None:
             nclasses = ppm.shape[-1]
-            self.ppm = np.asarray(ppm)
+            # copy: the posterior map is updated in place by ve_step
+            self.ppm = np.array(ppm, dtype='double', order='C')
             self.is_ppm = True
             self.mu = np.zeros((nclasses, nchannels))
             self.sigma = np.zeros((nclasses, nchannels, nchannels))
